@@ -437,10 +437,136 @@ func c17r1(c *Ctx) {
 			c.OK(rule, FuncName(fn), construct, pos, fmt.Sprintf("all %d returns reachable with the error set return a non-nil error", nret))
 		}
 	}
+	// a tolerated sentinel (`err != nil && !errors.Is(err, ErrX)` lets the call go on) rests on "a dependency fault is not a
+	// module sentinel": the function whose error is tested must not report a failed dependency *as* that sentinel
+	for _, fn := range fns {
+		for _, b := range fn.Blocks {
+			for _, in := range b.Instrs {
+				is, ok := in.(*ssa.Call)
+				if !ok || CalleeName(is) != "errors.Is" || len(is.Call.Args) != 2 {
+					continue
+				}
+				ld, ok := is.Call.Args[1].(*ssa.UnOp)
+				if !ok {
+					continue
+				}
+				g, ok := ld.X.(*ssa.Global)
+				if !ok || !c.P.sentinelError(g) {
+					continue
+				}
+				src := errSourceCall(is.Call.Args[0], 0)
+				if src == nil {
+					continue
+				}
+				sc := src.Call.StaticCallee()
+				if sc == nil || len(sc.Blocks) == 0 || sc.Pkg == nil || !strings.HasPrefix(sc.Pkg.Pkg.Path(), modPath) {
+					continue
+				}
+				construct := "tolerated sentinel " + g.Name() + " of " + sc.Name() + " in " + fn.Name()
+				if at := sentinelOnFailurePath(c.P, sc, g, map[*ssa.Function]bool{}); at != "" {
+					c.FailX(Oblig{Rule: rule, Func: FuncName(fn), Construct: construct, Pos: c.P.InstrPos(is), Kind: "violation",
+						Detail:   sc.Name() + " reports a failed dependency as " + g.Name() + " (" + at + "), and " + fn.Name() + " goes on when the error is that sentinel: the failure is swallowed and the call reports success",
+						Expected: "a dependency failure is returned as it is, never as (or wrapped into) a sentinel that callers tolerate"})
+				} else {
+					c.OK(rule, FuncName(fn), construct, c.P.InstrPos(is), "no path from a failed dependency in "+sc.Name()+" builds or returns that sentinel")
+				}
+			}
+		}
+	}
 	c.Count("dependency call sites", ndep)
 	if ndep < 25 {
 		c.Fail(rule, "floor", "-", "dependency-sites", "-", fmt.Sprintf("only %d dependency call sites found below the entry points (>= 25 confirmed by hand)", ndep))
 	}
+}
+
+// errSourceCall: the call whose error result the value is (through φ's of the same call's result and nil).
+func errSourceCall(v ssa.Value, depth int) *ssa.Call {
+	if depth > 4 {
+		return nil
+	}
+	switch x := v.(type) {
+	case *ssa.Call:
+		return x
+	case *ssa.Extract:
+		if c, ok := x.Tuple.(*ssa.Call); ok {
+			return c
+		}
+	case *ssa.Phi:
+		var found *ssa.Call
+		for _, ed := range x.Edges {
+			if isNilConst(ed) {
+				continue
+			}
+			c := errSourceCall(ed, depth+1)
+			if c == nil || (found != nil && c != found) {
+				return nil
+			}
+			found = c
+		}
+		return found
+	}
+	return nil
+}
+
+// sentinelOnFailurePath: somewhere in fn (or in a module function it calls) the sentinel is loaded — to be returned, or to be
+// wrapped by fmt.Errorf — in a block that is reachable only after a dependency or carrier call has failed. Returns where.
+func sentinelOnFailurePath(p *Prog, fn *ssa.Function, g *ssa.Global, seen map[*ssa.Function]bool) string {
+	if seen[fn] || len(seen) > 12 {
+		return ""
+	}
+	seen[fn] = true
+	// blocks entered through the failure edge of an error test of a call that can carry a dependency failure
+	failed := map[*ssa.BasicBlock]string{}
+	for _, s := range errorSites(p, fn) {
+		if s.kind == "carrier" && !carriesDepFailure(p, s.call.Call.StaticCallee(), map[*ssa.Function]bool{}) {
+			continue
+		}
+		ev := errValueOf(s.call)
+		if ev == nil || ev.Referrers() == nil {
+			continue
+		}
+		for _, u := range *ev.Referrers() {
+			bo, ok := u.(*ssa.BinOp)
+			if !ok || !(bo.Op == token.NEQ || bo.Op == token.EQL) || !isNilConst(bo.Y) || bo.Referrers() == nil {
+				continue
+			}
+			for _, w := range *bo.Referrers() {
+				iff, ok := w.(*ssa.If)
+				if !ok || len(iff.Block().Succs) != 2 {
+					continue
+				}
+				fb := iff.Block().Succs[0]
+				if bo.Op == token.EQL {
+					fb = iff.Block().Succs[1]
+				}
+				// everything dominated by the failure branch
+				for _, b := range fn.Blocks {
+					if b == fb || fb.Dominates(b) {
+						if len(fb.Preds) == 1 {
+							failed[b] = s.name + " at " + p.InstrPos(s.call)
+						}
+					}
+				}
+			}
+		}
+	}
+	for _, b := range fn.Blocks {
+		for _, in := range b.Instrs {
+			if ld, ok := in.(*ssa.UnOp); ok && ld.X == ssa.Value(g) {
+				if dep, isFailed := failed[b]; isFailed {
+					return "loaded at " + p.InstrPos(ld) + " after the failure of " + dep
+				}
+			}
+			if call, ok := in.(*ssa.Call); ok {
+				if sc := call.Call.StaticCallee(); sc != nil && len(sc.Blocks) > 0 && sc.Pkg != nil && strings.HasPrefix(sc.Pkg.Pkg.Path(), modPath) {
+					if at := sentinelOnFailurePath(p, sc, g, seen); at != "" {
+						return at
+					}
+				}
+			}
+		}
+	}
+	return ""
 }
 
 // R2: entry points return (nil, err) or (out, nil): whenever the error operand of a return is not the nil constant the
